@@ -31,7 +31,7 @@ var HelloKinds = []string{"small", "pad512", "mid", "big1", "pq", "huge"}
 // parameter list qtp.  Every call returns new extension objects.
 //
 //	small   X25519 key share, few extensions (about 300 bytes)
-//	pad512  small + BoringSSL padding rule (512 bytes)
+//	pad512  small + an unknown 100-byte extension + BoringSSL padding rule (512 bytes)
 //	mid     small + an unknown 500-byte extension
 //	big1    small + an unknown extension that fills most of one datagram
 //	pq      X25519MLKEM768 + X25519 key shares (two datagrams)
@@ -64,7 +64,7 @@ func HelloSpec(kind string, qtp tls.TransportParameters) *tls.ClientHelloSpec {
 	}
 	switch kind {
 	case "pad512":
-		exts = append(exts, &tls.UtlsPaddingExtension{GetPaddingLen: tls.BoringPaddingStyle})
+		exts = append(exts, filler(100), &tls.UtlsPaddingExtension{GetPaddingLen: tls.BoringPaddingStyle})
 	case "mid":
 		exts = append(exts, filler(500))
 	case "big1":
@@ -111,6 +111,15 @@ func (s *TokenStore) Pop(key string) *quic.ClientToken {
 		return nil
 	}
 	return quic.NewClientToken(s.Tok)
+}
+
+// TakePops returns the keys Pop was called with since the last call.
+func (s *TokenStore) TakePops() []string {
+	s.mu.Lock()
+	defer s.mu.Unlock()
+	p := s.Pops
+	s.Pops = nil
+	return p
 }
 
 func (s *TokenStore) Put(string, *quic.ClientToken) {
